@@ -2,13 +2,9 @@
    and /repo/overlay/tio (decodeRead, SegmentSuperpacket): cases are produced by harness `segment`, the pipeline
    cases through the overlay shim go/overlay/overlay/tio/verif_segment.go.
 
-   A case carries a superpacket (headers as a hex literal; payload as a hex literal or as the generator rule that
-   produced it, re-run here), the parameters (direct call) or the virtio_net_hdr (pipeline), and the
-   implementation's result: None for a returned error, otherwise the segments handed to the callback (copied at
-   callback time). Small cases carry every segment as a complete literal. To keep the volume coqc has to parse
-   affordable, for larger cases the harness compares each segment's payload with the input bytes at the running
-   offset and, when they are identical, prints the reference (offset, length) instead of the bytes; a payload that
-   differs is always printed in full. Headers are always literals.
+   A case carries a superpacket as a complete byte literal, the parameters (direct call) or the virtio_net_hdr
+   (pipeline), and the implementation's result: None for a returned error, otherwise every segment handed to the
+   callback (copied at callback time) as a complete byte literal.
 
    code 1: the segments differ bytewise from [segment_tcp]/[segment_udp] (and, for small cases, from the in-place
            replay [segment_*_inplace]), or an error is returned where the model returns segments / vice versa;
@@ -17,64 +13,37 @@
            the model: it re-derives everything from the input and the observed bytes - payload concatenation and
            segment sizes, copied header bytes, lengths, IPv4 ID, sequence numbers, flag rules, and a fresh
            recomputation of the IPv4 header checksum and of the TCP/UDP checksum over pseudo-header ++ L4;
-   code 3: the case literal itself is malformed (a payload reference outside the packet). *)
+   code 3: the case literal itself is malformed (a packed byte string shorter than its stated length). *)
 From Coq Require Import List NArith Bool Arith.
-From Coq Require String Ascii.
+From Coq Require Import Uint63.
 Import ListNotations.
 From NV Require Import lib.Bytes lib.Corr lib.Ones model.Segment.
 Open Scope N_scope.
 
-(* byte strings are lower-case hex string literals (much cheaper for coqc to read than lists of numerals) *)
-Definition hexval (a : Ascii.ascii) : N :=
-  let n := Ascii.N_of_ascii a in if n <? 58 then n - 48 else n - 87.
-Fixpoint unhex (s : String.string) : list N :=
-  match s with
-  | String.String a (String.String b r) => (16 * hexval a + hexval b) :: unhex r
-  | _ => []
-  end.
+(* byte strings are printed packed, seven bytes (big-endian) per primitive 63-bit integer literal, with their length:
+   coqc reads primitive integer literals natively, some thirty times faster than string or N literals *)
+Definition packed := (N * list int)%type.
 
-(* payload of a generated superpacket: a literal, or a rule the harness and this file both implement *)
-Inductive psrc :=
-| PHex (s : String.string)
-| PRep (b len : N)          (* len copies of byte b *)
-| PLcg (seed len : N)       (* x' = (1664525 x + 1013904223) mod 2^32, byte = x' / 2^24 *)
-| PMix (seed len : N).      (* the same generator; 0xff except where bits 20..23 of x' are zero: then byte = bits 8..15 *)
+Definition b2N (b : int) : N :=
+  let t (m : int) (v : N) := if PrimInt63.eqb (PrimInt63.land b m) 0%uint63 then 0 else v in
+  t 128%uint63 128 + t 64%uint63 64 + t 32%uint63 32 + t 16%uint63 16 + t 8%uint63 8 + t 4%uint63 4 + t 2%uint63 2
+  + t 1%uint63 1.
+Definition byte_at_shift (x : int) (sh : int) : N := b2N (PrimInt63.land (PrimInt63.lsr x sh) 255%uint63).
+Definition unpack7 (x : int) (r : list N) : list N :=
+  byte_at_shift x 48%uint63 :: byte_at_shift x 40%uint63 :: byte_at_shift x 32%uint63 :: byte_at_shift x 24%uint63 ::
+  byte_at_shift x 16%uint63 :: byte_at_shift x 8%uint63 :: byte_at_shift x 0%uint63 :: r.
+Fixpoint unpack_all (l : list int) : list N :=
+  match l with
+  | [] => []
+  | x :: r => unpack7 x (unpack_all r)
+  end.
+Definition unpack (p : packed) : list N := firstn (N.to_nat (fst p)) (unpack_all (snd p)).
+Definition packed_ok (p : packed) : bool := (N.to_nat (fst p) <=? 7 * length (snd p))%nat.
 
-Definition lcg_next (x : N) : N := (1664525 * x + 1013904223) mod 4294967296.
-Fixpoint lcg_bytes (mix : bool) (x : N) (n : nat) : list N :=
-  match n with
-  | O => []
-  | S k => let x' := lcg_next x in
-           (if mix then (if (x' / 1048576) mod 16 =? 0 then (x' / 256) mod 256 else 255) else x' / 16777216)
-           :: lcg_bytes mix x' k
-  end.
-Definition payload_of (p : psrc) : list N :=
-  match p with
-  | PHex s => unhex s
-  | PRep b len => repeat b (N.to_nat len)
-  | PLcg seed len => lcg_bytes false seed (N.to_nat len)
-  | PMix seed len => lcg_bytes true seed (N.to_nat len)
-  end.
-
-(* one observed segment: its first bytes as a literal, the rest either as a literal or - when the harness found it
-   byte-for-byte equal to input[off : off+len] - as that reference *)
-Inductive opay := OLit (s : String.string) | ORef (off len : N).
-Inductive oseg := OSeg (hdr : String.string) (pay : opay).
-Definition seg_of (pkt : list N) (o : oseg) : list N :=
-  match o with
-  | OSeg h (OLit s) => unhex h ++ unhex s
-  | OSeg h (ORef off len) => unhex h ++ firstn (N.to_nat len) (skipn (N.to_nat off) pkt)
-  end.
-Definition oseg_ok (pkt : list N) (o : oseg) : bool :=
-  match o with
-  | OSeg _ (ORef off len) => (N.to_nat off + N.to_nat len <=? length pkt)%nat
-  | _ => true
-  end.
-
-(* hdr = the leading bytes of the superpacket as a literal (all headers), pay = the rest *)
+(* res: None = an error was returned (or a panic, see panicked); Some segs = the slices handed to the callback *)
 Inductive case :=
-| CDirect (tcp : bool) (hdr : String.string) (pay : psrc) (hl cs g : N) (res : option (list oseg)) (panicked : bool)
-| CPipe (vh : vhdr) (hdr : String.string) (pay : psrc) (res : option (list oseg)) (panicked : bool).
+| CDirect (tcp : bool) (pkt : packed) (hl cs g : N) (res : option (list packed)) (panicked : bool)
+| CPipe (vh : vhdr) (pkt : packed) (res : option (list packed)) (panicked : bool).
 
 (* ---- the executable specification (the property, evaluated on the implementation's output) ---- *)
 
@@ -130,10 +99,10 @@ Definition spec_ok (tcp : bool) (pkt : list N) (hl cs g : nat) (segs : list (lis
 
 Definition segs_eqb := option_eqb (list_eqb nlist_eqb).
 
-Definition obs_of (pkt : list N) (res : option (list oseg)) : option (list (list N)) * bool :=
+Definition obs_of (res : option (list packed)) : option (list (list N)) * bool :=
   match res with
   | None => (None, true)
-  | Some os => (Some (map (seg_of pkt) os), forallb (oseg_ok pkt) os)
+  | Some os => (Some (map unpack os), forallb packed_ok os)
   end.
 
 (* the in-place replay costs (#segments x buffer length) per case: run it on the small cases only *)
@@ -152,14 +121,14 @@ Definition check_seg (tcp : bool) (pkt : list N) (hl cs g : nat) (obs : option (
 
 Definition check_case (c : case) : list N :=
   match c with
-  | CDirect tcp hs pay hl cs g res panicked =>
-      let pkt := unhex hs ++ payload_of pay in
-      let '(obs, okform) := obs_of pkt res in
-      flag 3 okform ++ check_seg tcp pkt (N.to_nat hl) (N.to_nat cs) (N.to_nat g) obs panicked
-  | CPipe vh hs pay res panicked =>
-      let pkt := unhex hs ++ payload_of pay in
-      let '(obs, okform) := obs_of pkt res in
-      flag 3 okform ++
+  | CDirect tcp pp hl cs g res panicked =>
+      let pkt := unpack pp in
+      let '(obs, okform) := obs_of res in
+      flag 3 (okform && packed_ok pp) ++ check_seg tcp pkt (N.to_nat hl) (N.to_nat cs) (N.to_nat g) obs panicked
+  | CPipe vh pp res panicked =>
+      let pkt := unpack pp in
+      let '(obs, okform) := obs_of res in
+      flag 3 (okform && packed_ok pp) ++
       match decode_read pkt vh with
       | DSuper tcp hl cs g =>
           if (g =? 0)%nat then flag 1 (negb panicked && segs_eqb (Some [pkt]) obs)
